@@ -542,23 +542,22 @@ func (fr *frame) applyContract(fc *FuncContract, display string, names []string,
 		if !w.allocKeys[k] && !w.all && !strings.HasPrefix(k, "map!") {
 			// no fresh object of this sort: only the modifies objects change (quantifier-free)
 			for _, m := range mods {
-				if m.sortKey == k {
+				if m.sortKey != k {
+					continue
+				}
+				if m.idx == "" {
 					na := c.declConst("modobj", "(Array Int "+k+")")
 					c.wrObj(st, k, m.obj, na)
+				} else {
+					ne := c.declConst("modelem", k)
+					c.wrElem(st, k, m.obj, m.idx, ne)
 				}
 			}
 			continue
 		}
-		nh := c.declConst(heapKey(k)+"_call", c.heapSortOf(k))
+		nh := c.newHeapConst(k, "_call")
 		st.heaps[k] = nh
-		var excl []string
-		for _, m := range mods {
-			if m.sortKey == k {
-				excl = append(excl, fmt.Sprintf("(not (= o %s))", m.obj))
-			}
-		}
-		fr.assumeR(fmt.Sprintf("(forall ((o Int)) (! (=> %s (= (select %s o) (select %s o))) :pattern ((select %s o))))",
-			and(append([]string{"(< o " + preAlloc + ")"}, excl...)...), nh, old, nh))
+		fr.assumeR(frameFormula(k, nh, old, "", preAlloc, mods, strings.HasPrefix(k, "map!")))
 	}
 	rs := fr.havocResults(rts, st)
 	post := &SpecEnv{c: c, fr: fr, vars: env.vars, st: st, old: pre, pkg: env.pkg, results: rs, resultNames: resultNames(sig)}
